@@ -6,6 +6,7 @@ Ids are positions in `names`; the protocol speaks ids only (names are distinct b
 model keys everything by id).
 """
 from __future__ import annotations
+import zlib
 import itertools, random
 import core
 
@@ -305,6 +306,9 @@ def _noise_step(nodes, step, cls):
             _warm(nodes, a)
 
 
+_PROP = {}
+
+
 def build_real(d):
     """build real DAGNode objects edge by edge through the public setters; returns nodes (by id).
     With d["noise"] (see add_noise) the final DAG is reached through a HISTORY: warm-up queries, refused
@@ -314,6 +318,19 @@ def build_real(d):
     attrs = d.get("attrs") or {}
     noise = d.get("noise") or []
     cls = hooked_class() if noise else DAGNode
+    sel = d.get("sel")
+    if not noise and isinstance(sel, list) and sel and zlib.crc32(repr((d.get("fmt"), sel, d["edges"])).encode()) % 3 == 0:
+        # requested attributes are read with node.get_attr(key), i.e. getattr: a user subclass may supply them through a
+        # read-only property instead of the instance dictionary (private fields `_p_<key>` behind properties)
+        keys = tuple(sorted({k for k, _c in sel}))
+        if keys not in _PROP:
+            ns = {k: property(lambda self, _k=k: self.__dict__.get("_p_" + _k)) for k in keys}
+
+            def __init__(self, name, _keys=keys, **kw):
+                DAGNode.__init__(self, name, **{("_p_" + k if k in _keys else k): v for k, v in kw.items()})
+            ns["__init__"] = __init__
+            _PROP[keys] = type("PropDAGNode", (DAGNode,), ns)
+        cls = _PROP[keys]
     nodes = [cls(nm, **attrs.get(str(i), {})) for i, nm in enumerate(d["names"])]
     modes = d.get("modes") or ""
     for k, (p, c) in enumerate(d["edges"]):
